@@ -32,3 +32,4 @@ def check(repo, rep, tier):
         else:
             rep.violation('C16.A6', 'generate_expr:%s' % h, 'atom text is pasted without repr(): the run-time string differs from the source string', h.func.loc())
     rep.minimum('string literal templates', len(table), 1)
+    rc.rule_list_order(cm, rep, 'C16.A7')
